@@ -3,7 +3,7 @@ import ast
 
 from sa.core import (AnalysisError, FUNC, assignments, call_name, class_attr, const, dotted, enclosing, enclosing_func,
                      enclosing_stmt, is_attr, is_name, is_self_attr, literal, norm, params, parent, walk_local, names_in, ancestors)
-from sa.guards import facts, enclosing_loops
+from sa.guards import facts, enclosing_loops, split
 from sa.finite import Interp, C, K, S, TOP
 
 PROP = "C06"
@@ -47,7 +47,8 @@ def run(cx):
     repo = cx.repo
     for r, t in (("R06a", "the branch comparator is a total order with ints below strings"),
                  ("R06b", "branches are sorted with it; master/main sorts last through a string prefix"),
-                 ("R06c", "only commits matching the search text are listed")):
+                 ("R06c", "only commits matching the search text are listed"),
+                 ("R06e", "'not merged' never lists a commit reachable from this branch's head")):
         cx.rule(r, t)
     cmpf = cx.func(REL, "BranchName.cmp", "R06a")
     inner = [f for f in ast.walk(cmpf) if isinstance(f, FUNC) and f is not cmpf]
@@ -171,9 +172,15 @@ def run(cx):
     rb = [f for m, q, f in repo.functions({REL}) if f.name == "_read_branch"]
     cx.need(len(rb) == 1, "R06c", f"{REL}::_read_branch", "branch reader")
     nm = [v for _, v in assignments(rb[0], "not_merged_rcommits") if v is not None]
-    ok = len(nm) == 1 and isinstance(nm[0], ast.DictComp) and [norm(i) for i in nm[0].generators[0].ifs] == ["rcommit.is_explicit and iid not in all_commits_in_this_branch"] \
-        and norm(nm[0].generators[0].iter) == "all_commits_prev_branch.items()"
+    conj = []
+    if len(nm) == 1 and isinstance(nm[0], ast.DictComp) and len(nm[0].generators) == 1:
+        for i in nm[0].generators[0].ifs:
+            conj += [norm(e) for e, pol in split(i, True) if pol]
+    ok = len(nm) == 1 and isinstance(nm[0], ast.DictComp) and "rcommit.is_explicit" in conj and "iid not in all_commits_in_this_branch" in conj \
+        and norm(nm[0].generators[0].iter) == "all_commits_prev_branch.items()" and [norm(e) for e in nm[0].generators[0].target.elts] == ["iid", "rcommit"] \
+        and norm(nm[0].key) == "iid" and norm(nm[0].value) == "rcommit"
     cx.ob("R06c", nm[0] if nm else rb[0], ok, "'not merged' = matching commits of the previous branch that are absent from this one" if ok else "'not merged' set filter altered")
+    cx.guard(_r06e, cx, rb[0], nm[0] if nm else None, conj)
     # provenance of is_explicit
     rc_init = cx.func(REL, "RCommit.__init__", "R06c")
     ok = any(norm(s) == "self.is_explicit = is_explicit" for s in rc_init.body) and params(rc_init)[3] == "is_explicit"
@@ -375,3 +382,69 @@ def _classify_use(r, p, mut_attrs):
     if isinstance(p, ast.Expr):
         return "read", True, "value unused"
     return "read", False, f"unrecognised use of the cached list ({type(p).__name__})"
+
+
+def _local_deps(func, name, seen=None):
+    """Names the value of local `name` depends on: through its assignments and through in-place growth (add/update/append/extend)."""
+    seen = set() if seen is None else seen
+    if name in seen:
+        return set()
+    seen.add(name)
+    out = set()
+    exprs = [v for _, v in assignments(func, name) if v is not None]
+    for n in walk_local(func):
+        if isinstance(n, ast.Call) and isinstance(n.func, ast.Attribute) and is_name(n.func.value, name) and n.func.attr in ("add", "update", "append", "extend"):
+            exprs += list(n.args)
+            # what controls / feeds the loop the growth sits in
+            for l in enclosing_loops(n):
+                exprs.append(l.test if isinstance(l, ast.While) else l.iter)
+        if isinstance(n, (ast.For, ast.comprehension)) and name in names_in(n.target):
+            exprs.append(n.iter)
+    for e in exprs:
+        for x in ast.walk(e):
+            if isinstance(x, ast.Name) and isinstance(x.ctx, ast.Load):
+                out.add(x.id)
+                out |= _local_deps(func, x.id, seen)
+            if isinstance(x, ast.Attribute):
+                out.add("." + x.attr)
+    return out
+
+
+def _r06e(cx, rb, comp, conj):
+    """A matching commit reachable from this head must never be listed under 'not merged' - also when it belongs to no build
+    of this branch (the head lies inside, or coincides with, the history of a lower-sorted branch: the commit walk stops on
+    the cached head at once and the branch gets no builds of its own).  Structural necessary condition: the filter excludes a
+    set that is computed from the head's accumulated report-related parents (the root accumulator of the walk) by following
+    `.parents`, not only the commits filed under this branch's builds."""
+    cx.need(comp is not None, "R06e", rb, "'not merged' comprehension")
+    root = [st for st, v in assignments(rb, "result_accumdata") if v is not None]
+    cx.need(len(root) == 1, "R06e", rb, "root accumulator of the commit walk (result_accumdata)")
+    excl = []
+    for c in conj:
+        if c.startswith("iid not in "):
+            excl.append(c[len("iid not in "):])
+    hit = None
+    for name in excl:
+        # a closure loop:  worklist seeded from result_accumdata.rc_parents, consumed and re-fed with <x>.parents, filling `name`
+        for l in [n for n in walk_local(rb) if isinstance(n, (ast.While, ast.For))]:
+            fills = [c for c in ast.walk(l) if isinstance(c, ast.Call) and isinstance(c.func, ast.Attribute) and is_name(c.func.value, name) and c.func.attr in ("add", "update")]
+            if not fills:
+                continue
+            feeds = []
+            for c in ast.walk(l):
+                if isinstance(c, ast.Call) and isinstance(c.func, ast.Attribute) and c.func.attr in ("extend", "append", "update", "add") and isinstance(c.func.value, ast.Name) \
+                        and any(isinstance(a, ast.Attribute) and a.attr == "parents" for x in c.args for a in ast.walk(x)):
+                    feeds.append(c.func.value.id)
+                if isinstance(c, ast.AugAssign) and isinstance(c.target, ast.Name) and any(isinstance(a, ast.Attribute) and a.attr == "parents" for a in ast.walk(c.value)):
+                    feeds.append(c.target.id)
+            for w in feeds:
+                consumed = (isinstance(l, ast.While) and w in names_in(l.test)) or any(isinstance(c, ast.Call) and isinstance(c.func, ast.Attribute) and is_name(c.func.value, w) and c.func.attr in ("pop", "popleft") for c in ast.walk(l))
+                seeded = any(v is not None and "result_accumdata.rc_parents" in norm(v) for _, v in assignments(rb, w))
+                if consumed and seeded:
+                    hit = name
+    cx.ob("R06e", comp, hit is not None,
+          f"commits in `{hit}` - the closure over .parents of the head's report-related parents - are excluded" if hit else
+          f"the filter excludes only {excl or 'nothing'}, none of which is derived from the commits reachable from the head (result_accumdata.rc_parents followed through .parents): "
+          "with two branches whose heads coincide, or a higher-sorted head on an older commit of the lower branch, the walk stops on the cached head, the branch has no builds, "
+          "and every matching commit of the lower branch - although reachable from this head - is listed as not merged",
+          stmt="'not merged' excludes what the head reaches")
